@@ -102,8 +102,101 @@ def cases(rng, tier):
     return out
 
 
+STD_I = ['add', 'wback', 'index', 't', 'n', 'imm32']
+STD_I2 = ['add', 'wback', 'index', 'imm32', 't', 'n']
+STD_R = ['add', 'wback', 'index', 'm', 't', 'n', 'shift_t', 'shift_n']
+UNP_S = ['add', 'register_form', 'post_index', 't', 'n', 'm', 'shift_t', 'shift_n', 'imm32']
+UNP = ['add', 'register_form', 'post_index', 't', 'n', 'm', 'imm32']
+EXTRA = [
+    # spec-only rows (no theorem): the same parametric specification, further classes
+    ('LdrbImmediateThumb', 'LOAD LByte', True, STD_I), ('LdrbRegister', 'LOAD LByte', None, STD_R),
+    ('LdrhImmediateArm', 'LOAD LHalf', False, STD_I2), ('LdrhImmediateThumb', 'LOAD LHalf', True, STD_I),
+    ('LdrhRegister', 'LOAD LHalf', None, STD_R), ('LdrsbImmediate', 'LOAD LSByte', None, STD_I2),
+    ('LdrsbRegister', 'LOAD LSByte', None, STD_R), ('LdrshRegister', 'LOAD LSHalf', None, STD_R),
+    ('LdrRegisterThumb', 'LOAD LWordThumb', True, ['m', 't', 'n', 'shift_t', 'shift_n']),
+    ('StrImmediateThumb', 'STORE 4', True, STD_I), ('StrRegister', 'STORE 4', None, STD_R),
+    ('StrbImmediateArm', 'STORE 1', False, STD_I), ('StrbImmediateThumb', 'STORE 1', True, STD_I),
+    ('StrhImmediateArm', 'STORE 2', False, STD_I2), ('StrhImmediateThumb', 'STORE 2', True, STD_I), ('StrhRegister', 'STORE 2', None, STD_R),
+    ('Ldrt', 'LOAD LWordArm', False, UNP_S), ('Ldrbt', 'LOAD LByte', False, UNP_S), ('Ldrht', 'LOAD LHalf', False, UNP),
+    ('Ldrsbt', 'LOAD LSByte', False, UNP), ('Ldrsht', 'LOAD LSHalf', False, UNP),
+    ('Strt', 'STORE 4', False, UNP_S), ('Strbt', 'STORE 1', False, UNP_S), ('Strht', 'STORE 2', False, UNP),
+]
+
+
+def snake(name):
+    import re
+    return re.sub(r'(?<!^)(?=[A-Z])', '_', name).lower()
+
+
+def extra_cases(rng, tier):
+    """further load/store classes against the same parametric specification (Spec/LoadStore.v), without theorems; the
+    unprivileged forms (LDRT ...) take post_index / register_form in place of index / wback"""
+    t = statelib.load_index(C.GEN)['tables']
+    out = []
+    per = 16 if tier == 'quick' else 800
+    for (cls, kind, thumbk, fields) in EXTRA:
+        module = snake(cls)
+        for _ in range(per):
+            thumb = thumbk if thumbk is not None else rng.random() < 0.5
+            cfgd, st, secure = mk_state(rng, t, thumb)
+            arch, jaz = cfgd['arch_version'], int(cfgd['jazelle_accepts_execution'])
+            virt = b(cfgd['have_virt_ext'])
+            v = {'add': rng.choice([0, 1]), 'index': rng.choice([0, 1]), 'wback': rng.choice([0, 0, 1])}
+            if not v['index']:
+                v['wback'] = 1 if rng.random() < 0.7 else v['wback']
+            if 'post_index' in fields:
+                v['post_index'] = rng.choice([0, 1])
+                v['register_form'] = rng.choice([0, 1])
+                v['index'], v['wback'] = 1 - v['post_index'], v['post_index']
+            if fields[0] == 'm':
+                v['add'], v['index'], v['wback'] = 1, 1, 0
+            v['n'] = rng.choice([0, 1, 2, 3, 13, 14])
+            v['t'] = rng.choice([4, 5, 6, 7, 12])
+            v['m'] = rng.choice([8, 9, 10])
+            v['imm32'] = rng.choice([0, 1, 2, 3, 4, 5, 8, 0xFF, 0xFFF])
+            v['shift_t'], v['shift_n'] = rng.choice([(1, 0), (1, 2), (2, 1), (3, 31), (4, 8), (5, 1)]) if 'shift_t' in fields else (1, 0)
+            base = rng.choice([0x1000, 0x1010, 0x1041, 0x1082, 0x10C3, 0x10F8, 0xFFFFFFF4, 0xFFFFFFFD, 0x0, 0x3, 0x2000])
+            set_reg(st, t, v['n'], base)
+            set_reg(st, t, v['m'], rng.choice([0, 1, 2, 3, 4, 0x10, 0xFFFFFFFF, 0x80000000]))
+            if kind.startswith('STORE'):
+                set_reg(st, t, v['t'], rng.getrandbits(32))
+            cfg = statelib.coq_config(cfgd, t)
+            m = statelib.coq_machine(st)
+            impl_fields = [0]
+            for f in fields:
+                impl_fields.append(['enum', 'shift', 'SRType', v[f]] if f == 'shift_t' else v[f])
+            args = ' '.join(C.zc(v[f]) for f in fields)
+            model = f'(enc_out enc_machine enc_unit ({cls}_execute {cfg} 0 {args} {m}))'
+            rd = f'(fun a sz s => MemU_get_flat {arch} {virt} {b(secure)} s a sz)'
+            wr = f'(fun a sz v s => MemU_set_flat {arch} {virt} {b(secure)} s a sz v)'
+            reg_off = f'(fst (Shift_C 32 (rget {m} {v["m"]}) {v["shift_t"]} {v["shift_n"]} (psr_C (cpsr_of {m}))))'
+            if 'register_form' in fields:
+                off = reg_off if v['register_form'] else v['imm32']
+            else:
+                off = v['imm32'] if 'imm32' in fields else reg_off
+            common = f'{m} (rget {m} {v["n"]}) {off} {v["add"]} {v["index"]} {v["wback"]} {v["n"]}'
+            if kind.startswith('LOAD'):
+                spec = f'(LOAD {rd} {arch} {jaz} {kind.split()[1]} {common} {v["t"]})'
+            else:
+                size = int(kind.split()[1])
+                addr = f'(ls_address (rget {m} {v["n"]}) {off} {v["add"]} {v["index"]})'
+                # a misaligned word store from Thumb state / halfword store without unaligned support stores an UNKNOWN value
+                # (A8.8.203-208: "else MemU[address,n] = bits(8n) UNKNOWN"); the emulator's UNKNOWN is 0
+                if size == 4:
+                    val = f'(if unaligned_support {m} || (bits {addr} 1 0 =? 0) || (iset_of {m} =? 0) then rget {m} {v["t"]} else 0)'
+                elif size == 2:
+                    val = f'(if unaligned_support {m} || (bit {addr} 0 =? 0) then bits (rget {m} {v["t"]}) 15 0 else 0)'
+                else:
+                    val = f'(bits (rget {m} {v["t"]}) 7 0)'
+                spec = f'(STORE {wr} {size} {common} {val})'
+            out.append({'impl': {'kind': 'exec', 'state': st, 'module': module, 'cls': cls, 'fields': impl_fields},
+                        'model': model, 'spec': f'(enc_out enc_machine enc_unit {spec})', 'label': 'extra_' + cls, 'nontrivial': True})
+    return out
+
+
 def units():
     thms = ['C02_LDR_imm_arm', 'C02_LDR_imm_thumb', 'C02_LDR_reg_arm', 'C02_LDRB_imm_arm', 'C02_LDRSH_imm', 'C02_STR_imm_arm',
             'C02_STRB_reg', 'C02_rd_ok_flat', 'C02_wr_ok_flat']
     needs = ['opcodes.abstract_opcodes.%s.%s.execute' % (mod, cls) for (cls, mod, _, _, _) in CLASSES]
-    return [Unit('load_store', thms, ['Proofs/LSProofs.v', 'Proofs/MemProofs.v'], needs, cases, IMPORTS, SPEC_IMPORTS)]
+    return [Unit('load_store', thms, ['Proofs/LSProofs.v', 'Proofs/MemProofs.v'], needs, cases, IMPORTS, SPEC_IMPORTS),
+            Unit('load_store_extra', [], [], [], extra_cases, IMPORTS, SPEC_IMPORTS)]
